@@ -288,8 +288,10 @@ Section Inv.
     split; [exact Hli'|]. split; [exact (Forall_inv_tail Hri)|].
     split.
     { intros j Hj. unfold gBL. rewrite EBL. destruct (Nat.eq_dec j (S (length Al))) as [->|Hne].
-      - rewrite nth_lset_same by lia. rewrite <- FB. rewrite app_length. cbn [length]. rewrite Nat.add_1_r.
-        rewrite firstn_all2 by (rewrite app_length; cbn [length]; lia). reflexivity.
+      - rewrite nth_lset_same by lia.
+        assert (Hlen1 : length (Al ++ [Aq]) = S (length Al)) by (rewrite app_length; cbn [length]; lia).
+        assert (Ef : firstn (S (length Al)) (Al ++ [Aq]) = Al ++ [Aq]) by (apply firstn_all2; lia).
+        rewrite Ef, <- FB, Hlen1. reflexivity.
       - rewrite nth_lset_other by lia. rewrite firstn_app_le by lia. apply HBL. lia. }
     split.
     { intros j Hj. unfold gBR. rewrite EBR. replace (S (length Al) + j)%nat with (length Al + S j)%nat by lia.
@@ -360,7 +362,7 @@ Section Inv.
       apply (gauge_amp R Al' Ar P X P (cmul_site (trmx C) Aq) (repeat d (length Al')) DsAl' d d (last DsAl' 0) Dm Dm Dar (repeat d (length Ar)) DsAr);
         try assumption; try reflexivity.
       - apply (cmul_site_ok R d Dm k Dar); assumption.
-      - intros s t a e Hs Ht Ha He. apply sumn_ext; intros c Hc. f_equal.
+      - intros s t a e Hs1 Ht Ha He. apply sumn_ext; intros c Hc. f_equal.
         rewrite (get_cmul_site R d Dm k Dar) by assumption. apply Hent; assumption.
       - rewrite words_glue2. replace (length Al' + S (S (length Ar)))%nat with L by lia. exact Hw.
       - congruence. }
